@@ -31,7 +31,8 @@ RULE = ("one case = a history of up to 60 operations on a parameter tree (depth 
         "in a tree of >= 3 nodes; distinct = digest of the history")
 COMPONENTS = {"real": ["pydsol.core.parameters (all 8 classes)", "pydsol.core.model.DSOLModel"],
               "stub": []}
-ASSUMPTIONS = ["weak fit: history + reference model, no scheduler or clock",
+ASSUMPTIONS = ["sizes are swarm-varied: about 1 % of the histories have 200 or 500 operations on trees of up to 120 nodes",
+               "weak fit: history + reference model, no scheduler or clock",
                "bool values are not offered to int/float parameters (bool is an int subclass)",
                "removing an absent key is not generated (docstring and code disagree)"]
 
@@ -95,13 +96,16 @@ def invalid_default(rng, kind, spec):
 def generate(seed, tier, idx=0):
     rng = common.rng_for(seed, "case")
     n = rng.choice([3, 5, 8, 12, 20, 30, 45, 60])
+    big = rng.random() < 0.01
+    if big:
+        n = rng.choice([200, 500])
     ops = []
     maps = [""]              # dotted paths of maps, relative to the root
     params = []              # (path, kind, spec)
     counter = 0
     for _ in range(n):
         r = rng.random()
-        if r < 0.30 and len(params) + len(maps) < 25:
+        if r < 0.30 and len(params) + len(maps) < (120 if big else 25):
             parent = rng.choice(maps)
             depth = parent.count(".") + (1 if parent else 0)
             kind = rng.choice(KINDS if depth < 3 else KINDS[:-1])
